@@ -60,8 +60,26 @@ def jac_to_aff(p):
     return (rdiv(x, z * z), rdiv(y, z * z * z))
 
 
+CUR_R = [None]
+
+
 def lits_summary(R):
+    """path description; also remembers R as the current path's ring so that require() can
+    attach the path's concrete witness point (substitutions + evaluation point) to replays."""
+    CUR_R[0] = R
     return [("%s%s0" % (" & ".join(core._short(c, 70) for c in l[0]), "==" if l[1] else "!=")) for l in R.lits]
+
+
+def _attach_witness(replay):
+    R = CUR_R[0]
+    if R is None or "point" in replay.get("args", {}):
+        return replay
+    return {"kind": replay["kind"], "args": dict(replay["args"], point=R.witness(),
+                                                 zero_lits=[core._short(c, 200) for l in R.lits if l[1] for c in l[0]])}
+
+
+from symx import harness as _h
+_h.Report.replay_hook = staticmethod(_attach_witness)
 
 
 def lit_index(R, origin=None):
